@@ -26,6 +26,10 @@ ASSUMPTIONS = ["contracts of WCSHelper.sky2pix_ellipse and "
                "fitting.elliptical_gaussian (units.py)"]
 
 MUTANTS = [
+    ("sources placed without the distortion terms",
+     "AegeanTools/wcs_helpers.py",
+     "        pixel = self.wcs.all_world2pix(",
+     "        pixel = self.wcs.wcs_world2pix(", "C14-R9"),
     ("model file receives the residual", "AegeanTools/AeRes.py",
      "        hdulist[0].data = model\n        hdulist.writeto(mfile, overwrite=True)",
      "        hdulist[0].data = residual\n        hdulist.writeto(mfile, overwrite=True)",
@@ -474,6 +478,14 @@ def run(ctx):
             len(set(canon)) == 6
     r7_promotion(ctx, prog)
     r8_outputs(ctx, prog)
+    # the model is placed with the inverse of the transformation that gave
+    # the catalogue its positions (shared with C16-R10)
+    from ..regionmodel import region_methods  # noqa: F401  (import check)
+    from .c16 import r10_same_transformation
+    wc = prog.classes.get("AegeanTools.wcs_helpers.WCSHelper")
+    if wc is None:
+        raise AnalysisError("C14-R9: class WCSHelper")
+    r10_same_transformation(ctx, prog, wc, rule="C14-R9")
     ctx.check("C14-R6", ls, "rename pairs", ok,
               "user column k must be renamed to canonical name k (the "
               "default of the corresponding *_col parameter)",
